@@ -3,6 +3,7 @@ package blockchain
 import (
 	"errors"
 	"fmt"
+	"sync"
 
 	"github.com/NethermindEth/juno/core"
 	"github.com/NethermindEth/juno/utils/lru"
@@ -29,6 +30,13 @@ type EventFiltersCacheKey struct {
 type AggregatedBloomFilterCache struct {
 	cache        *lru.Cache[EventFiltersCacheKey, *core.AggregatedBloomFilter]
 	fallbackFunc func(EventFiltersCacheKey) (core.AggregatedBloomFilter, error)
+
+	// generation counts the resets. A filter fetched through the fallback is only
+	// cached if no reset happened since the fetch started: a query that read a
+	// window from the database while a reorg was re-opening it must not put the
+	// pre-reorg filter back after the reorg has reset the cache.
+	mu         sync.Mutex
+	generation uint64
 }
 
 // NewAggregatedBloomCache creates a new LRU cache for aggregated bloom filters
@@ -51,7 +59,26 @@ func (c *AggregatedBloomFilterCache) WithFallback(fallback func(EventFiltersCach
 
 // Reset clears the entire bloom filter cache, removing all stored filters.
 func (c *AggregatedBloomFilterCache) Reset() {
+	c.mu.Lock()
+	defer c.mu.Unlock()
+	c.generation++
 	c.cache.Purge()
+}
+
+func (c *AggregatedBloomFilterCache) currentGeneration() uint64 {
+	c.mu.Lock()
+	defer c.mu.Unlock()
+	return c.generation
+}
+
+// addFetched caches a filter fetched while the cache was at the given generation.
+func (c *AggregatedBloomFilterCache) addFetched(generation uint64, filter *core.AggregatedBloomFilter) {
+	c.mu.Lock()
+	defer c.mu.Unlock()
+	if c.generation != generation {
+		return
+	}
+	c.cache.Add(EventFiltersCacheKey{fromBlock: filter.FromBlock(), toBlock: filter.ToBlock()}, filter)
 }
 
 // SetMany inserts multiple aggregated bloom filters into the cache.
@@ -185,6 +212,7 @@ func (it *MatchedBlockIterator) loadNextWindow() error {
 		return ErrAggregatedBloomFilterFallbackNil
 	}
 
+	generation := it.cache.currentGeneration()
 	fetched, err := it.cache.fallbackFunc(key)
 	if err != nil {
 		return fmt.Errorf("fetching aggregated bloom filter via fallback: %w", err)
@@ -194,7 +222,7 @@ func (it *MatchedBlockIterator) loadNextWindow() error {
 		return ErrFetchedFilterBoundsMismatch
 	}
 
-	it.cache.cache.Add(EventFiltersCacheKey{fromBlock: filter.FromBlock(), toBlock: filter.ToBlock()}, filter)
+	it.cache.addFetched(generation, filter)
 
 	err = it.matcher.getCandidateBlocksForFilterInto(filter, it.currentBits)
 	if err != nil {
